@@ -11,6 +11,10 @@ TRUSTED = ("Trusted base: g++ 12 ASan/UBSan runtimes and libstdc++ assertions, t
 
 # id -> (category, technique, text, design_ref)
 CHECKS = {
+    "C05": ("exploration", "hook-based runtime monitor: set of NiRef/NiStringRef objects passing through Sync vs the owner's enumerators, over typed-synthesised instances of every block type x version",
+            "All 304 registered block types x 14 versions are instantiated with populated fields by answering the reader through the typed read hook; every reference and "
+            "string index that is actually serialised (both directions) must be reported by GetChildRefs/GetPtrs/GetStringRefs, and GetChildIndices must agree with GetChildRefs. "
+            "Exhaustive over the registered types and versions, sampled over field values.", "3/C05"),
     "C18": ("exploration", "bounded-exhaustive differential testing against naive reference models under ASan/UBSan/libstdc++ assertions",
             "Every sorted index subset of vectors up to length 7 (10 thorough) for all index types used by callers, all small triangle lists x collapse maps, all strips over a "
             "4-symbol alphabet up to length 7 (8), plus random vectors at the 16-bit limits are pushed through the real templates and compared with naive models; out-of-container "
